@@ -659,6 +659,14 @@ func (r *runner) replay() {
 		t.Broken("replay: call %d outside the plan", rc.Call)
 	}
 	r.runBatch("replay", []*genCase{&c}, mult, rc.Call)
+	// as in a full run: a first CPU-budget excess (or watchdog) is only a candidate; it is repeated
+	// alone with twice the budget (an unbounded recursion can take longer than the budget to hit the stack limit)
+	r.ag.mu.Lock()
+	again := mult < 2 && len(r.ag.candidates) > 0
+	r.ag.mu.Unlock()
+	if again {
+		r.runBatch("replay2", []*genCase{&c}, 2, rc.Call)
+	}
 	if r.isFailed() {
 		t.Broken("%s", r.failed)
 	}
